@@ -238,7 +238,33 @@ func memWalk(r *rng.R, cancun bool) []byte {
 		if r.Intn(4) == 0 {
 			ln = 0
 		}
-		switch r.Intn(10) {
+		switch r.Intn(12) {
+		case 10, 11:
+			// a call to the identity precompile: input and output regions of independent (often zero) length at
+			// independent offsets, each side of what exists
+			lenOf := func() uint64 {
+				if r.Intn(3) == 0 {
+					return 0
+				}
+				return uint64(r.Intn(70))
+			}
+			offOf := func() uint64 {
+				if r.Bool() {
+					return pos + uint64(r.Intn(500))
+				}
+				return uint64(r.Intn(int(pos) + 1))
+			}
+			b.Push(lenOf()).Push(offOf()).Push(lenOf()).Push(offOf())
+			switch r.Intn(4) {
+			case 0:
+				b.Push(0).Push(4).Push(50000).Op(0xf1, 0x50)
+			case 1:
+				b.Push(0).Push(4).Push(50000).Op(0xf2, 0x50)
+			case 2:
+				b.Push(4).Push(50000).Op(0xf4, 0x50)
+			default:
+				b.Push(4).Push(50000).Op(0xfa, 0x50)
+			}
 		case 9:
 			// creations over memory that mostly exists already (init code = zero-led memory content: STOP)
 			if r.Bool() {
